@@ -1,8 +1,9 @@
 (* Extraction of the certificate checkers (used by C01, C02, C03, C08, C16). *)
 From Coq Require Extraction.
 From Coq Require Import ExtrOcamlBasic QArith List.
-From SV Require Import Vec LP Cert DriverModel DriverReplay.
+From SV Require Import Vec LP Cert DriverModel DriverReplay RatGateModel SolveGateModel.
 
 Extraction "../extract/C01/model.ml" feasible_b objective check_opt_exact check_farkas check_ray box
   check_opt_tol check_ray_tol dual_bound dvec tvec Qred Qcompare Qplus Qminus Qmult
-  replay st_code is_user_space.
+  replay st_code is_user_space
+  bound_violation row_violation dual_violation redcost_violation verify_bits.
